@@ -120,6 +120,20 @@ struct Runner
         // a third of the vectors get spare payload budget: a later reserve with a smaller budget may then fit the old block
         m.budget = budget + (rng.chance(1, 3) ? static_cast<size_t>(rng.below(96)) : 0);
         ledger().placement = static_cast<int>(cno % 2);
+        // the allocator's max_size(): three times what this vector can legitimately ask for
+        auto request_bound = [&](size_t cap, size_t bytes)
+        {
+            std::vector<size_t> counts(NF, 1);
+            size_t fi = 0;
+            for (size_t k = 0; k < NF; ++k)
+            {
+                if (fields[k].kind == 'F') counts[k] = m.fixed[fi++];
+                if (fields[k].kind == 'V') counts[k] = 0;
+            }
+            const Layout l = compute_layout(fields, counts);
+            return (cap + 1) * (l.size + 2 * l.max_align * NF) + bytes + 64;
+        };
+        ledger().max_bytes = 3 * request_bound(m.cap, m.budget);
         ctx("construct", fmt("n=%zu,b=%zu,fixed=%s,style=%d", m.cap, m.budget, jarr_num(m.fixed).c_str(), style));
         std::optional<Vec> v;
         v.emplace(construct(m.cap, m.budget, m.fixed, m.arena));
@@ -182,6 +196,7 @@ struct Runner
             for (auto& f : fields)
                 if (f.kind == 'V') per += f.size;
             const size_t b2 = Mon::payload(m) + static_cast<size_t>(rng.below(per * max_span * 2 + 1));
+            ledger().max_bytes = 3 * request_bound(n2, b2);
             ctx("reserve", fmt("n=%zu,b=%zu,size=%zu", n2, b2, m.e.size()));
             if constexpr (Cfg::N_VARYING != 0)
                 v->reserve(n2, b2);
@@ -294,6 +309,7 @@ int main(int argc, char** argv)
         }
     }
     counters().add("layout_elements_emplaced", stats.elements);
+    counters().add("requests_over_reported_max_size", ledger().requests_over_max);  // 0 unless the bound of the engine is too tight
     std::vector<std::string> cfgs;
     for (auto& e : entries) cfgs.push_back(e.cfg);
     emit(J().kv("t", "summary").raw("ops", Counters{stats.ops}.json()).raw("counters", counters().json()).kv("steps", stats.steps).kv("avoided", 0).raw("prestate_op", "[]").raw("layout_configs", jarr_str(cfgs)).kv("objects_constructed", 0).kv("objects_destroyed", 0).kv("alloc_events", ledger().alloc_events).kv("dealloc_events", ledger().dealloc_events).str());
